@@ -26,6 +26,13 @@ fi
 rm -f "target/hang_${PROP}.txt"
 ./target/harness/release/vcheck "$PROP" "$TIER"
 code=$?
+# thorough tier: coverage-guided campaign (libFuzzer, oracle inside the target) after the generated tier
+if [ "$code" = "0" ] && [ "$TIER" = "thorough" ]; then
+  case "$PROP" in
+    C11) python3 tools/fuzz_tier.py C11 c11_decode 2000000 8 512; code=$? ;;
+    C03) python3 tools/fuzz_tier.py C03 c03_agreement 250000 8 120; code=$? ;;
+  esac
+fi
 if [ -f "target/hang_${PROP}.txt" ]; then cat "target/hang_${PROP}.txt" >&2; fi
 if [ "$code" = "3" ]; then echo "ABORT: the process was aborted (stack overflow / allocation failure) inside a call into the crate under test; inputs of the calls in flight: target/abort_${PROP}.jsonl ; the run is inconclusive" >&2; code=2; fi
 exit $code
